@@ -556,3 +556,40 @@ V("c07-locals-by-reference", "C07", "R07.8", "dask_array/_dispatch.py",
   "    if \"<\" in qualname:\n        return None\n", "", expect="_importable_ref")
 V("c07-new-pickle-name", "C07", "R07.1", "dask_array/_rechunk.py",
   "        return \"rechunk-p2p-\" + tokenize(*self.operands)", "        import pickle\n\n        return \"rechunk-p2p-\" + hash_buffer_hex(pickle.dumps(tuple(self.operands)))", expect="P2PRechunk._name::pickle")
+
+# ---------------------------------------------------------------------------- C29
+V("c29-eager-slice-duck-arrays", "C29", "R29.1", "dask_array/io/_from_array.py",
+  "        is_ndarray = type(source) in (np.ndarray, np.ma.core.MaskedArray)\n        region_shape",
+  "        is_ndarray = type(source) in (np.ndarray, np.ma.core.MaskedArray) or hasattr(source, \"__array_function__\")\n        region_shape", expect="FromArray._accept_slice::subscript")
+V("c29-eager-slice-inline-array", "C29", "R29.1", "dask_array/io/_from_array.py",
+  "        if is_ndarray:\n            if region_shape == source.shape:", "        if is_ndarray or self.inline_array:\n            if region_shape == source.shape:", expect="FromArray._accept_slice::subscript")
+V("c29-layer-slices-any-source", "C29", "R29.1", "dask_array/io/_from_array.py",
+  "        if is_ndarray and not is_single_block and not lock:", "        if not is_single_block and not lock:", expect="FromArray._layer::subscript")
+V("c29-meta-from-first-element", "C29", "R29.1", "dask_array/io/_from_array.py",
+  "        return meta_from_array(self.array, dtype=getattr(self.array, \"dtype\", None))", "        return meta_from_array(self.array[(slice(0, 1),) * len(self._effective_shape)], dtype=getattr(self.array, \"dtype\", None))", expect="FromArray._meta::subscript")
+V("c29-from-array-materializes", "C29", "R29.1", "dask_array/core/_conversion.py",
+  "    if is_arraylike(x) and hasattr(x, \"copy\"):\n        x = x.copy()\n", "    if is_arraylike(x) and hasattr(x, \"copy\"):\n        x = x.copy()\n    elif hasattr(x, \"__array__\"):\n        x = np.asarray(x)\n", expect="from_array::call:asarray")
+V("c29-storage-chunks-probe-reads", "C29", "R29.1", "dask_array/io/_from_array.py",
+  "        raw_storage_chunks = _source_storage_chunks(self.array)\n", "        raw_storage_chunks = _source_storage_chunks(self.array)\n        probe = self.array[(0,) * len(self._effective_shape)]\n", expect="FromArray._accept_rechunk::subscript")
+V("c29-user-func-called-in-meta", "C29", "R29.2", "dask_array/_blockwise.py",
+  "                meta = meta_from_array(None, ndim=self.ndim, dtype=self.operand(\"dtype\"))\n            return meta",
+  "                meta = meta_from_array(self.func(*self.args[::2]), ndim=self.ndim, dtype=self.operand(\"dtype\"))\n            return meta", expect="Blockwise._meta")
+V("c29-compute-meta-raw-args", "C29", "R29.2", "dask_array/_utils.py",
+  "func(*args_meta, **kwargs_meta)", "func(*args, **kwargs_meta)", expect="compute_meta")
+V("c29-repr-computes", "C29", "R29.3", "dask_array/_collection.py",
+  "    def __repr__(self):\n        name = self.name.rsplit(\"-\", 1)[0]\n", "    def __repr__(self):\n        name = self.name.rsplit(\"-\", 1)[0]\n        if self.size < 5:\n            return repr(self.compute())\n", expect="Array.__repr__")
+V("c29-take-identity-unguarded", "C29", "R29.4", "dask_array/slicing/_basic.py",
+  "        if not is_dask_collection(index):\n            # take(x, [0, 1, ..., n-1])", "        if index is not None:\n            # take(x, [0, 1, ..., n-1])", expect="take")
+V("c29-broadcast-meta-raw", "C29", "R29.5", "dask_array/_broadcast_to.py",
+  "            return meta_from_array(meta_override, ndim=len(self._shape))", "            return meta_override", expect="BroadcastTo::_meta_override")
+V("c29-blockwise-meta-raw", "C29", "R29.5", "dask_array/_blockwise.py",
+  "            # Use getattr for dtype since some metas (e.g., DataFrame) don't have .dtype\n",
+  "            if type(self._meta_provided) is np.ndarray and self._meta_provided.ndim == self.ndim:\n                return self._meta_provided\n            # Use getattr for dtype since some metas (e.g., DataFrame) don't have .dtype\n", expect="Blockwise::_meta_provided")
+V("c29-twin-rename-guard-alias", "C29", "-", "dask_array/io/_from_array.py", None, None, twin=True, edits=[
+  ("dask_array/io/_from_array.py", "        is_ndarray = type(source) in (np.ndarray, np.ma.core.MaskedArray)\n        region_shape", "        numpy_source = type(source) in (np.ndarray, np.ma.core.MaskedArray)\n        region_shape"),
+  ("dask_array/io/_from_array.py", "        if is_ndarray:\n            if region_shape == source.shape:", "        if numpy_source:\n            if region_shape == source.shape:"),
+])
+V("c29-twin-guard-inlined", "C29", "-", "dask_array/io/_from_array.py",
+  "        if is_ndarray:\n            if region_shape == source.shape:", "        if type(source) in (np.ndarray, np.ma.core.MaskedArray) and region_nbytes >= 0:\n            if region_shape == source.shape:", twin=True)
+V("c29-twin-meta-attr-reads", "C29", "-", "dask_array/io/_from_array.py",
+  "        raw_storage_chunks = _source_storage_chunks(self.array)\n", "        raw_storage_chunks = _source_storage_chunks(self.array)\n        ndim_hint = getattr(self.array, \"ndim\", len(self.array.shape))\n", twin=True)
